@@ -27,7 +27,8 @@ class ReplayBuild:
         os.makedirs(self.dir)
         dst = os.path.join(self.dir, "repo")
         shutil.copytree(self.repo, dst, ignore=shutil.ignore_patterns("target", ".git"), symlinks=True)
-        with open(os.path.join(dst, "src", "lib.rs"), "a") as f:
+        # appended to src/db.rs so that the module is a child of `db` and can use its test hooks
+        with open(os.path.join(dst, "src", "db.rs"), "a") as f:
             f.write('\n#[cfg(raindb_verif)]\n#[path = "%s/replay/api.rs"]\npub mod verif_api;\n' % VERIF)
         # the copy must not be a workspace member of anything else
         rp = os.path.join(self.dir, "replay")
@@ -65,6 +66,8 @@ def cex_to_text(cex):
         lines.append("op " + " ".join(str(x) for x in op))
     for fl in cex.get("files", []):
         lines.append("file " + " ".join(str(x) for x in fl))
+    for op in cex.get("db", []):
+        lines.append("db " + " ".join(str(x) for x in op))
     if "block_size" in cex:
         lines.append("block_size %d" % cex["block_size"])
     for e in cex.get("entries", []):
@@ -130,7 +133,17 @@ def family_table_get(seed):
     return fam
 
 
+def family_db_snapshot(seed):
+    a = lambda s: s.encode().hex() if s else "-"
+    base = [["put", a("a"), a("1")], ["put", a("m"), a("2")], ["put", a("z"), a("3")], ["flush"]]
+    return [
+        {"oracle": "db_history", "db": base + [["reopen", "fresh"], ["reopen", "fresh"]]},
+        {"oracle": "db_history", "db": base + [["put", a("b"), a("4")], ["flush"], ["reopen", "fresh"], ["reopen", "reuse"], ["compact"]]},
+    ]
+
+
 FAMILIES = [
+    ("U19::write_snapshot_record_file", family_db_snapshot),
     ("U10::implTable::get", family_table_get),
     ("U05::", family_log_reader),
     ("U04::", family_log_reader),
